@@ -76,7 +76,7 @@ class World(WorldBase):
             "producers": rng.sample(PRODUCERS, rng.randint(1, 3)),
             "p_exact": rng.choice([0.0, 0.3, 0.7]),
             "p_default_args": rng.choice([0.0, 0.3]),
-            "maxN": rng.choice([6, 12, 24, 40]),
+            "maxN": rng.choice([6, 12, 24, 40, 40, 130]),
             "maxT": rng.randint(1, 3),
             "faults": [],
             "hold_max": 0,
